@@ -445,6 +445,8 @@ func runOp(w *simrt.World, b *Built, op *Op, res *OpResult) {
 	case "parse":
 		w.Fd1.Faults, w.Fd2.Faults = op.Fd1Faults, op.Fd2Faults
 		w.Fd1.Fired, w.Fd2.Fired = 0, 0
+		w.Fd1.ResetCalls()
+		w.Fd2.ResetCalls()
 		rest, err := b.P.ParseArgs(strs(op.Argv))
 		classifyErr(err, res)
 		res.Rest = bstrs(rest)
